@@ -287,6 +287,8 @@ def main(modname, argv):
         "probes": dict(sorted(agg.probes.items())),
         "stats": dict(sorted(agg.stats.items())),
         "distinct_traces": len(agg.shapes),
+        "trace_digest": hashlib.sha1(",".join("%x" % h if isinstance(h, int) else str(h) for h in sorted(agg.shapes, key=str)).encode()).hexdigest(),
+        "case_digest": hashlib.sha1(",".join(str(k) for k in sorted(agg.keys, key=str)).encode()).hexdigest(),
         "observations": dict(sorted(agg.observations.items())),
         "known_findings_reported": sorted(reported),
         "components": getattr(mod, "COMPONENTS", {}),
